@@ -26,6 +26,8 @@ import sys
 import time
 import z3
 sys.path.insert(0, os.path.dirname(os.path.abspath(__file__)))
+# bound on the number of children / elements per node; the thorough tier of the driver raises it
+DEPTH = int(os.environ.get("MIRSYM_DEPTH", "3"))
 from mirsym import Engine, parse_mir, STD_MODELS, Unsupported, PanicFound, Ref, Opaque, is_sym
 
 
@@ -257,7 +259,7 @@ def main():
         f_this = by_sig("::from_context", "&mut FunctionContext<'_>", "This<T>")
         f_args = by_sig("::from_context", "&mut FunctionContext<'_>", "magic::Arguments")
         f_exprx = by_sig("::from_context", "&mut FunctionContext<'_>", "Result<Expression")
-        for n in range(0, 4):
+        for n in range(0, DEPTH + 1):
             for idx in range(0, n + 2):
                 for rk in (["ok", "err"] if idx < n else ["ok"]):
                     results = ["ok"] * n
